@@ -335,16 +335,16 @@ func (l *Linter) lint(node ast.Node, ctx *context.Context) types.Type {
 }
 
 func (l *Linter) lintVCL(vcl *ast.VCL, ctx *context.Context) types.Type {
-	// Handle snippet mode - statements without subroutine wrapper
-	if vcl.IsSnippet {
-		return l.lintSnippetVCL(vcl, ctx)
-	}
-
 	// The main VCL must not be included by the modules either
 	if len(vcl.Statements) > 0 && len(l.including) == 0 {
 		if file := vcl.Statements[0].GetMeta().Token.File; file != "" {
 			l.including = append(l.including, file)
 		}
+	}
+
+	// Handle snippet mode - statements without subroutine wrapper
+	if vcl.IsSnippet {
+		return l.lintSnippetVCL(vcl, ctx)
 	}
 
 	// Resolve module, snippet inclusion
@@ -389,8 +389,9 @@ func (l *Linter) lintSnippetVCL(vcl *ast.VCL, ctx *context.Context) types.Type {
 	// Set the context scope for linting
 	ctx.Scope(scope)
 
-	// Lint each statement in the snippet
-	for _, s := range vcl.Statements {
+	// Lint each statement in the snippet.
+	// The include statements at the top of the snippet are resolved like the ones in a subroutine body
+	for _, s := range l.resolveIncludeStatements(vcl.Statements, ctx, false) {
 		l.lintStatement(s, ctx)
 	}
 
@@ -532,7 +533,7 @@ func (l *Linter) resolveFileInclusion(
 	return statements
 }
 
-// Resolve include statements which are placed in the blocks of the statements (subroutine, if / else)
+// Resolve include statements which are placed in the blocks of the statements (subroutine, if / else, switch case)
 func (l *Linter) resolveNestedIncludeStatements(statements []ast.Statement, ctx *context.Context) {
 	resolve := func(block *ast.BlockStatement) {
 		if block == nil {
@@ -555,6 +556,11 @@ func (l *Linter) resolveNestedIncludeStatements(statements []ast.Statement, ctx 
 			}
 			if t.Alternative != nil {
 				resolve(t.Alternative.Consequence)
+			}
+		case *ast.SwitchStatement:
+			for _, c := range t.Cases {
+				c.Statements = l.resolveIncludeStatements(c.Statements, ctx, false)
+				l.resolveNestedIncludeStatements(c.Statements, ctx)
 			}
 		}
 	}
